@@ -714,6 +714,8 @@ def run(prog, rep, tier):
         raise AnalysisError('RESUME-init-once: no in-place preparation of psi in any init_state')
     if check_resume_forwarded(prog, rep) < 15:
         raise AnalysisError('RESUME-forward: fewer than 15 overrides delegate with resume_data')
+    if check_override_returns(prog, rep) < 5:
+        raise AnalysisError('RESUME-return: fewer than 5 value-returning overrides in simulations/')
     if check_resume_sequential(prog, rep) < 1:
         raise AnalysisError('RESUME-sequential: no **mapping passed to run_seq_simulations')
     rep.floor('CRASH-typestate', 8)
@@ -979,4 +981,43 @@ def check_resume_forwarded(prog, rep):
                                   'its part of the checkpointed state from it (a resumed run '
                                   'restarts its counters / schedule instead of continuing)' %
                                   unparse(c)[:70], c.lineno)
+    return n
+
+
+def check_override_returns(prog, rep):
+    """RESUME-return: a method of the simulation / algorithm classes that overrides a method whose
+    base implementation returns a value, and delegates to it with a bare `super().m(..)`
+    statement, drops that value: callers written against the base class (resume_from_checkpoint
+    returning the results of resume_run) get None from the subclass."""
+    ct = prog.classtable()
+
+    def returns_value(fn):
+        return any(r.value is not None and not (isinstance(r.value, ast.Constant) and
+                                                r.value.value is None)
+                   for r in ast.walk(fn) if isinstance(r, ast.Return))
+    n = 0
+    for ci in ct.all:
+        if not (ci.module.relpath.startswith('tenpy/simulations/')):
+            continue
+        for name, f in ci.methods.items():
+            if name == '__init__':
+                continue
+            _, g = ct.resolve_method(ci, name, after=ci)
+            if g is None or not returns_value(g):
+                continue
+            n += 1
+            bare = [st for st in stmts_of(f) if isinstance(st, ast.Expr) and isinstance(
+                st.value, ast.Call) and isinstance(st.value.func, ast.Attribute) and
+                st.value.func.attr == name and isinstance(st.value.func.value, ast.Call) and
+                call_name(st.value.func.value) == 'super']
+            rep.instance('RESUME-return', {'override': '%s.%s' % (ci.name, name),
+                                           'returns_value': returns_value(f),
+                                           'bare_super_calls': len(bare)})
+            if bare and not returns_value(f):
+                rep.violation('RESUME-return', ci.module, '%s.%s' % (ci.name, name),
+                              'drops-return:' + name,
+                              '`%s` delegates to the base implementation, which returns a value, '
+                              'and drops it: %s.%s() returns None where the base class returns '
+                              'the results' % (key_text(bare[0])[:60], ci.name, name),
+                              bare[0].lineno)
     return n
